@@ -9,6 +9,7 @@ import J1939.Model.Listener
 import J1939.Lemmas.Tactics
 import J1939.Lemmas.ConstCa
 import J1939.Props.C13
+import J1939.Model.Dll22
 namespace J1939.Props.C05
 open J1939 J1939.Gen
 
@@ -131,3 +132,56 @@ theorem c05_listener_flags :
     ∀ stopped err remote ext, Listener.forwards stopped err remote ext = (!stopped && !err && !remote && ext) := by decide
 
 end J1939.Props.C05
+
+/-! ## J1939-22 (FD) -/
+namespace J1939.Props.C05
+open J1939 J1939.Gen
+
+/-- FOREIGN TRAFFIC IS A NO-OP (J1939-22): a PDU1 frame whose destination is neither global nor accepted by a local
+    listener/CA — whatever its PGN: FD.TP.CM (RTS, CTS, end-of-message status/ack, BAM announcement, abort), FD.TP.DT,
+    multi-PG, request, address claim, anything — returns the SAME state, transmits nothing, delivers nothing, raises
+    nothing -/
+theorem c05_22_foreign_noop (cfg : Dll22.Cfg) (s : Dll22.St) (now : Nat) (acc : Nat → Bool) (canId : Nat) (data : List Nat)
+    (hpdu1 : PGN.is_pdu2_format (PGN.from_message_id (MessageId.ofCanId canId)) = false)
+    (hd : (PGN.from_message_id (MessageId.ofCanId canId)).pdu_specific ≠ 255)
+    (hacc : acc (PGN.from_message_id (MessageId.ofCanId canId)).pdu_specific = false) :
+    Dll22.notify cfg s now acc canId data = { st := s, outs := [], err := none } := by
+  have hd' : ((PGN.from_message_id (MessageId.ofCanId canId)).pdu_specific != Const.Addr.GLOBAL) = true := by
+    simpa [Const.Addr.GLOBAL] using hd
+  unfold Dll22.notify
+  simp [hpdu1, hd', hacc]
+
+/-- J1939-22 BYSTANDER: any sequence of frames between other nodes leaves the stack exactly as it was and silent -/
+def feed22 (cfg : Dll22.Cfg) (acc : Nat → Bool) (s : Dll22.St) : List (Nat × Nat × List Nat) → Dll22.St × List Dll22.Out
+  | [] => (s, [])
+  | (now, cid, d) :: fs =>
+    let r := Dll22.notify cfg s now acc cid d
+    let q := feed22 cfg acc r.st fs
+    (q.1, r.outs ++ q.2)
+
+theorem c05_22_bystander (cfg : Dll22.Cfg) (acc : Nat → Bool) (s : Dll22.St) (frames : List (Nat × Nat × List Nat))
+    (h : ∀ f ∈ frames, PGN.is_pdu2_format (PGN.from_message_id (MessageId.ofCanId f.2.1)) = false ∧
+          (PGN.from_message_id (MessageId.ofCanId f.2.1)).pdu_specific ≠ 255 ∧
+          acc (PGN.from_message_id (MessageId.ofCanId f.2.1)).pdu_specific = false) :
+    feed22 cfg acc s frames = (s, []) := by
+  induction frames generalizing s with
+  | nil => rfl
+  | cons f fs ih =>
+    obtain ⟨now, cid, d⟩ := f
+    obtain ⟨h1, h2, h3⟩ := h (now, cid, d) (by simp)
+    simp only [feed22, c05_22_foreign_noop cfg s now acc cid d h1 h2 h3]
+    rw [ih s (fun g hg => h g (by simp [hg]))]
+    rfl
+
+/-- J1939-22 (repair of D18): a PDU2 frame is a broadcast — it is handed up with destination 255 whatever its group
+    extension byte is, and never touches the transport state -/
+theorem c05_22_pdu2_is_broadcast (cfg : Dll22.Cfg) (s : Dll22.St) (now : Nat) (acc : Nat → Bool) (canId : Nat) (data : List Nat)
+    (h : PGN.is_pdu2_format (PGN.from_message_id (MessageId.ofCanId canId)) = true) :
+    Dll22.notify cfg s now acc canId data =
+      { st := s, outs := [.notify (MessageId.ofCanId canId).priority (PGN.value (PGN.from_message_id (MessageId.ofCanId canId)))
+                            (MessageId.ofCanId canId).source_address Const.Addr.GLOBAL data], err := none } := by
+  unfold Dll22.notify
+  simp [h]
+
+end J1939.Props.C05
+
